@@ -229,9 +229,11 @@ where
     blocks
 }
 
-fn entry_facts(entry: &dyn Entry, strip: &Path) -> Value {
+fn entry_facts(entry: &dyn Entry, strip: &Path, given: &Path) -> Value {
     let (root, rel) = entry.root_relative_paths();
     json!({
+        "root_eq_given": root == given, "root_is_empty": root.as_os_str().is_empty(), "rel_eq_path": rel == entry.path(),
+        "rel_is_absolute": rel.is_absolute(),
         "path": rel_text(entry.path(), strip),
         "root": rel_text(root, strip), "root_raw": cps(&root.to_string_lossy()),
         "rel": cps(&rel.to_string_lossy()),
@@ -297,8 +299,9 @@ pub fn run_scenario(sc: &Value, top: &Path) -> Value {
             let given = if sc["rooted"].as_bool().unwrap_or(false) { PathBuf::from("/nonexistent-base") } else { base.clone() };
             let g2 = glob.clone().into_owned();
             let strip2 = strip.clone();
+            let given2 = given.clone();
             let blocks = drive(glob.walk_with_behavior(given, behavior), &slots, &strip, move |e: &GlobEntry| {
-                let mut f = entry_facts(e, &strip2);
+                let mut f = entry_facts(e, &strip2, &given2);
                 let rel = e.root_relative_paths().1.to_string_lossy().into_owned();
                 f["matched"] = json!(cps(e.matched().complete()));
                 f["candidate"] = json!(cps(e.to_candidate_path().as_ref()));
@@ -310,7 +313,8 @@ pub fn run_scenario(sc: &Value, top: &Path) -> Value {
         }
         else {
             let strip2 = strip.clone();
-            let blocks = drive(base.as_path().walk_with_behavior(behavior), &slots, &strip, move |e: &wax::walk::TreeEntry| entry_facts(e, &strip2));
+            let given2 = base.clone();
+            let blocks = drive(base.as_path().walk_with_behavior(behavior), &slots, &strip, move |e: &wax::walk::TreeEntry| entry_facts(e, &strip2, &given2));
             json!({"blocks": blocks})
         }
     });
